@@ -11,4 +11,24 @@ ParAll    == {Names}
 MapsNone  == {}
 MapsAll   == UNION {[D -> Names] : D \in SUBSET Names}      \* every map over the names: (|Names|+1)^|Names|
 ParSome   == {P \in SUBSET Names : Cardinality(P) >= 2}
+
+\* Self-check of the property: a model whose set-by-name uses the listener
+\* cascade of the code (SetAlg) instead of the definition must violate Follows.
+SetByNameSC(o, a, v) ==
+  /\ Quiet /\ o \in Live /\ a \in own[o].par /\ SetAcceptable(own[o], a, v)
+  /\ Upd(o, SetAlg(own[o], a, v)) /\ Ret("Set", o, 0, "ok") /\ UNCHANGED bulk
+NextSC == DoNew \/ DoAlias \/ (\E o \in Live, a \in Names, v \in Vals : SetByNameSC(o, a, v))
+SpecSC == Init /\ [][NextSC]_vars
+
+\* Self-check of the liveness property: the loop as it was before the repair
+\* (an entry whose source is a pending key is retried without advancing) must
+\* violate BulkTerminates.
+BulkIterStuck(R, b) ==
+  IF b.cur # 0 /\ b.rest[b.cur] \notin b.have /\ b.rest[b.cur] \in R.par THEN [R |-> R, b |-> b] ELSE BulkIter(R, b)
+BulkStepStuck ==
+  /\ bulk.pc = "loop"
+  /\ LET S == BulkIterStuck(own[bulk.o], bulk) IN Upd(bulk.o, S.R) /\ bulk' = S.b
+  /\ UNCHANGED out
+NextStuck == DoNew \/ DoBulk \/ BulkStepStuck \/ BulkReturnRaise \/ BulkReturnOk
+SpecStuck == Init /\ [][NextStuck]_vars /\ WF_vars(BulkStepStuck \/ BulkReturnRaise \/ BulkReturnOk)
 =============================================================================
